@@ -168,18 +168,22 @@ theorem rtc_ty (htot : fc.Total) : ∀ (t : JTy) (v : Val) (j : Json), expressib
       subst h
       simpa [canon] using hz
     · rename_i n
-      simp only [decide_eq_true_eq] at hv
+      clear hv
       by_cases h0 : n < 0
       · simp only [mapEncode, encTime, h0, if_true, Except.ok.injEq] at h
         subst h
         simpa [canon, h0] using hz
-      · simp only [mapEncode, encTime, h0, if_false, hv, if_true, Except.ok.injEq] at h
-        subst h
-        have h63 : n.toNat < 2 ^ 63 := by
-          have := hv; simp only [pow2] at this; omega
-        have h64 : n.toNat < 2 ^ 64 := by omega
-        have hn : ((n.toNat : Nat) : Int) = n := by omega
-        simp [mapDecode, asStr, decTime, parseDec_decStr, ofOpt, h63, h64, hn, canon, h0]
+      · by_cases hv : n < pow2 63
+        · simp only [mapEncode, encTime, h0, if_false, hv, if_true, Except.ok.injEq] at h
+          subst h
+          have h63 : n.toNat < 2 ^ 63 := by
+            have := hv; simp only [pow2] at this; omega
+          have h64 : n.toNat < 2 ^ 64 := by omega
+          have hn : ((n.toNat : Nat) : Int) = n := by omega
+          simp [mapDecode, asStr, decTime, parseDec_decStr, ofOpt, h63, h64, hn, canon, h0, hv]
+        · simp only [mapEncode, encTime, h0, if_false, hv, Except.ok.injEq] at h
+          subst h
+          simp [mapDecode, asStr, decTime, parseDec_decStr, ofOpt, canon, h0, hv, maxNano]
   | .slice b e, v, j, hx, hv, h => by
     refine ⟨?_, by simp [altShape]⟩
     simp only [expressible] at hx
